@@ -332,6 +332,42 @@ func c08TypedDriver(deep bool) func(c *explore.Chooser) *c08Case {
 	}
 }
 
+// spacing (after seed C08i: a `-` directly before a digit taken for the sign of a literal): arithmetic chains whose
+// operators are written with blanks on both sides, on neither, only before or only after, between atoms and
+// integer literals.  How an operator is spaced decides nothing.
+func c08SpacingDriver(maxOps int) func(c *explore.Chooser) *c08Case {
+	arith := []string{"+", "-", "*", "/"}
+	return func(c *explore.Chooser) *c08Case {
+		n := 1 + c.Choose(maxOps)
+		ops := make([]string, n)
+		sp := make([]int, n)
+		for i := range ops {
+			ops[i] = arith[c.Choose(len(arith))]
+			sp[i] = c.Choose(4)
+		}
+		operands := make([]string, n+1)
+		for i := range operands {
+			operands[i] = c08Atoms[i]
+			if c.Bool() {
+				operands[i] = fmt.Sprint(i + 1)
+			}
+		}
+		allDefault := true
+		var sb strings.Builder
+		sb.WriteString(operands[0])
+		for i, op := range ops {
+			if sp[i] != 0 {
+				allDefault = false
+			}
+			sb.WriteString([]string{" " + op + " ", op, " " + op, op + " "}[sp[i]] + operands[i+1])
+		}
+		if allDefault {
+			c.Skip("the default spacing is the plain family")
+		}
+		return &c08Case{src: sb.String(), expected: c08ShuntingYard(operands, ops), nops: n, kind: "spacing"}
+	}
+}
+
 // pipe chains: e0 |> s1 |> ... with e0 a chain of <= 2 operators
 func c08PipeDriver(maxE0Ops, maxStages int) func(c *explore.Chooser) *c08Case {
 	return func(c *explore.Chooser) *c08Case {
@@ -570,12 +606,14 @@ func checkC08(c *core.Ctx) {
 		collect(c08LongDriver(16, 8))
 		collect(c08VeryLongDriver([]int{64, 99, 100, 101, 102, 103, 130, 257, 513, 1025}))
 		collect(c08TypedDriver(true))
+		collect(c08SpacingDriver(4))
 	} else {
 		collect(c08Driver(3, 2, 3, 2, 1)) // chains <= 3 ops; forms on <= 2 ops; <= 1 break
 		collect(c08PipeDriver(1, 2))
 		collect(c08LongDriver(12, 6))
 		collect(c08VeryLongDriver([]int{64, 100, 101, 102, 103, 130, 257}))
 		collect(c08TypedDriver(false))
+		collect(c08SpacingDriver(3))
 	}
 	c.Set("explorer", map[string]any{"executions": st.Executions, "max_depth": st.MaxDepth, "bound": "none (complete enumeration of the bounded space)"})
 	c.Count(0, st.States, st.Transitions, 0)
